@@ -485,26 +485,17 @@ func projectEvLog(t *tpm.TPM) []cmdT {
 	return out
 }
 
-// expected rendering of the command log: the same commands, built afresh
-func renderRef(l []cmdT) string {
-	var b strings.Builder
-	for i, c := range l {
-		var s string
-		switch c.kind {
-		case kStartup:
-			s = tpm.NewCommandInit(c.l).LogString()
-		case kExtend:
-			s = tpm.NewCommandExtend(pcr.ID(c.p), tpm2.Algorithm(c.a), c.d).LogString()
-		case kLogAdd:
-			var data []byte
-			if !c.dataNil {
-				data = append([]byte{}, c.data...)
-			}
-			s = tpm.NewCommandEventLogAdd(*tpm.NewCommandExtend(pcr.ID(c.p), tpm2.Algorithm(c.a), c.d), tpmeventlog.EventType(c.ty), data).LogString()
-		}
-		fmt.Fprintf(&b, "%d. %s\n", i, s)
+// logText is the implementation's own rendering of its command log -- quoted in failure reports,
+// never compared with anything.
+func logText(t *tpm.TPM) string {
+	var got string
+	if p, _ := gal.Recover(func() { got = t.CommandLog.String() }); p {
+		return "(CommandLog.String() panicked)"
 	}
-	return b.String()
+	if len(got) > 300 {
+		got = got[:300] + "..."
+	}
+	return got
 }
 
 // oracleStep compares the implementation (after command cm returned class/pmsg)
@@ -550,12 +541,16 @@ func oracleStep(t *tpm.TPM, ref *refTPM, cm cmdT, class int, pmsg string, refOK 
 		}
 	}
 	if bad == "" {
-		var got string
-		if p, _ := gal.Recover(func() { got = t.CommandLog.String() }); p {
-			bad = "CommandLog.String() panicked"
-		} else if want := renderRef(ref.log); got != want {
-			bad = fmt.Sprintf("rendered CommandLog differs: got %q want %q", got, want)
+		// every command of these cases is executed with a nil info provider: the entries carry no cause
+		for j, e := range t.CommandLog {
+			if z := projCause(e); z != nil {
+				bad = fmt.Sprintf("CommandLog[%d] (%s) carries %s, the command was executed without a cause provider", j, cl[j], z)
+				break
+			}
 		}
+	}
+	if bad != "" && strings.HasPrefix(bad, "CommandLog") {
+		bad += fmt.Sprintf(" [the log as the implementation renders it: %q]", logText(t))
 	}
 	return bad
 }
